@@ -94,7 +94,8 @@ def jacobian_check(ctx, e, fam, case):
         real_err = np.atleast_1d(np.asarray(e.calc_error(), dtype=float))
         Jnum = M.BaseEdge.calc_jacobians(e)
     sig = M.sigma_vector(e, real_err, ref_err)
-    s = O.edge_scale(e)
+    # a forward difference perturbs the *absolute* coordinates by 1e-6: its round-off is eps x |absolute position| / 1e-6, however small the residual is
+    s = max([O.edge_scale(e)] + [R.tmag(kk, pp) for kk, pp in zip(ks, P)])
     if not isinstance(Jnum, (list, tuple)) or len(Jnum) != len(ks):
         ctx.check("numerical-jacobian-accuracy", False, {"family": fam, "why": "one Jacobian per vertex"}, None, case)
         return
